@@ -77,6 +77,40 @@ func ruleACCUM(w *World, r *Report) {
 	} else {
 		r.unk("ACCUM", "A-put", "-", "checksumShardLocationMap.put(crc32, md5, location) not found")
 	}
+	// A-all: every checksum pair of every file is registered
+	if mk := w.Fn("par2.makeChecksumShardLocationMap"); mk != nil {
+		nput := 0
+		for _, rf := range region(mk) {
+			loops := naturalLoops(rf)
+			for _, c := range callsIn(rf, "(par2.checksumShardLocationMap).put") {
+				if c.Parent() != rf {
+					continue
+				}
+				nput++
+				bad := ""
+				// the innermost loop around the call is the one over the checksum pairs
+				inner := innermostLoop(loops, c.Block())
+				for _, l := range loops {
+					if l != inner {
+						continue
+					}
+					for _, p := range l.head.Preds {
+						if l.body[p] && !c.Block().Dominates(p) {
+							bad = w.ipos(p.Instrs[len(p.Instrs)-1])
+						}
+					}
+				}
+				if bad == "" {
+					r.ok("ACCUM", "A-all:put", w.ipos(c), "every iteration over the checksum pairs registers its location")
+				} else {
+					r.bad("ACCUM", "A-all:put", w.ipos(c), "an iteration over the checksum pairs can go on (back-edge at "+bad+") without registering the slice's location: that slice can never be found, so an intact file is reported damaged")
+				}
+			}
+		}
+		r.floor("ACCUM", "put calls in makeChecksumShardLocationMap", nput, 1)
+	} else {
+		r.unk("ACCUM", "A-all", "-", "makeChecksumShardLocationMap not found")
+	}
 	// A-credit
 	fn := w.Fn("par2.fillShardInfos")
 	if fn == nil {
